@@ -64,6 +64,7 @@ thiserror! {
 }
 
 /// The parsing state for [`Difficulty`] in [`DecodeBeatmap`].
+#[cfg_attr(rosu_map_verif, derive(Clone, Debug))]
 pub struct DifficultyState {
     pub has_approach_rate: bool,
     pub difficulty: Difficulty,
